@@ -48,7 +48,10 @@ T_Intact ==
     /\ Is("Intact") /\ UNCHANGED <<vcfg, vfiles, vsig>>
     /\ vmd5' = E.md5
     /\ IF ReadsOriginal(E) THEN TRUE ELSE Bad("intact: read-back differs from original")
-    /\ IF E.fopen /\ ~VerifyFails(E) THEN TRUE ELSE Bad("intact: SFileVerifyFile fails")
+    /\ IF E.fopen THEN TRUE ELSE Bad("intact: SFileOpenArchive fails")
+    /\ IF \A j \in 1..Len(E.verify) : E.verify[j][2] THEN TRUE ELSE Bad("intact: SFileVerifyFile SECTOR_CRC fails")
+    /\ IF \A j \in 1..Len(E.verify) : E.verify[j][3] THEN TRUE ELSE Bad("intact: SFileVerifyFile FILE_CRC fails")
+    /\ IF \A j \in 1..Len(E.verify) : E.verify[j][4] THEN TRUE ELSE Bad("intact: SFileVerifyFile FILE_MD5 fails")
     /\ IF E.info = "ok" THEN TRUE ELSE Bad("intact: get_info fails")
     /\ IF vcfg.ver = 4 /\ (Len(E.md5) # 6 \/ ~(E.md5[1] /\ E.md5[2] /\ E.md5[3] /\ E.md5[6]))
          THEN Bad("intact: v4 hash/block/header digest invalid") ELSE TRUE
